@@ -669,8 +669,9 @@ func (w *Walker) callInternal(call *ast.CallExpr, fn *FuncInfo, st *State, nres 
 			site.Call = call
 			w.A.snap(site, s, recvs[i], args[i], nil, nil)
 		}
-		// pure functions: canonical terms, no effects
-		if w.A.isPure(fn) {
+		// pure functions: canonical terms, no effects (validators — pure functions whose only result is an error — go
+		// through the summary instead: what matters about them is what their nil result implies)
+		if w.A.isPure(fn) && !errorOnly(fn) {
 			if rs, ok := w.inlineCall(fn, recvs[i], args[i], s, nres, true); ok {
 				out = append(out, rs...)
 				continue
@@ -715,7 +716,7 @@ func (w *Walker) callInternal(call *ast.CallExpr, fn *FuncInfo, st *State, nres 
 			for e := range cl.Events {
 				ns.Events[e] = true
 			}
-			if cl.Ret == "true" || cl.Ret == "false" {
+			if cl.Ret == "true" || cl.Ret == "false" || cl.Ret == "nil" || cl.Ret == "nn" {
 				ns.Events["fn:"+fn.Name+"="+cl.Ret] = true
 			}
 			ns.Events["fn:"+fn.Name] = true
@@ -923,6 +924,9 @@ func (w *Walker) inlineCall(fn *FuncInfo, recv *Term, args []*Term, st *State, n
 			if len(ts) > 0 && ts[0] != nil && ts[0].K == KConst && (ts[0].S == "true" || ts[0].S == "false") {
 				x.Events["fn:"+fn.Name+"="+ts[0].S] = true
 			}
+			if len(ts) == 1 && ts[0] != nil && ts[0].K == KNil {
+				x.Events["fn:"+fn.Name+"=nil"] = true
+			}
 			for len(ts) < nres {
 				ts = append(ts, fresh("ret:"+fn.Name+":"))
 			}
@@ -1002,6 +1006,12 @@ func (w *Walker) inlineCall(fn *FuncInfo, recv *Term, args []*Term, st *State, n
 		return nil, false
 	}
 	return out, true
+}
+
+// errorOnly: the function's only result is an error.
+func errorOnly(fn *FuncInfo) bool {
+	sig := fn.Obj.Type().(*types.Signature)
+	return sig.Results().Len() == 1 && sig.Results().At(0).Type().String() == "error"
 }
 
 func stmtCount(n ast.Node) int {
